@@ -11,6 +11,7 @@
   every run against A(z) built by polynomial multiplication in the driver.
 -/
 import Jb.Proofs.Cepstrum
+import Jb.Proofs.LspStab
 
 set_option linter.unusedSectionVars false
 
@@ -65,5 +66,10 @@ theorem stage_cascade (d : List K) (ds : List (List K)) (x alpha : K) (c : List 
 theorem stage_gamma (nmcp nlpf stage : Nat) (hs : stage ≠ 0) (lg : Bool) (rate : Nat) (a b vol : K) (fp : Nat) :
     (VocoderSt.new nmcp nlpf stage lg rate a b vol fp : VocoderSt K).gamma = -(1 : K) / (stage : K) := by
   simp [VocoderSt.new, hs]
+
+/-- Increasing, well-separated frequencies (spacing and margins at least π/(4·len)) pass the stability
+    check unchanged, so the filter is driven by exactly the given line spectral frequencies. -/
+theorem well_separated_unchanged (v : List K) (h : LspStable v) : checkLspStability v = v :=
+  checkLspStability_id v h
 
 end Jb.C13
